@@ -11,8 +11,9 @@ CLAIM = dict(cat="proof", design="§3 C18",
         "recombination rates of all 14 tracked ions > 0 on [10,1e5] K and >= 0 everywhere (structural proofs from table sign conditions, Interval with bisection where dielectronic "
         "polynomials have negative terms), H and He rates strictly decreasing for all T > 0; cross sections zero below threshold, >= 0 with all pow bases positive, and equal to the literal "
         "Verner&Yakovlev 1995 / Verner et al. 1996 expressions on the raw table values; every charge-transfer rate the balance uses >= 0 for every temperature; Utilities::locate terminates and "
-        "brackets its argument; inverse-CDF samplers stay between the bracketing nodes, inside the table range and are monotone in the random number; the H/He Lyman-continuum samplers only for "
-        "temperatures inside the table (refuted outside: D7). Sign conditions are decided by proved-sound boolean checkers on tables REGENERATED each run from data/verner_*.dat by an independent parser. "
+        "brackets its argument; inverse-CDF samplers stay between the bracketing nodes, inside the table range and are monotone in the random number; the H/He Lyman-continuum samplers as shipped only for "
+        "temperatures inside the table (refuted outside with a witness: D7), and for every temperature in the variant that clamps T to the table first (a regenerated flag from a source scan "
+        "selects which variant is compared with the real samplers, so the check follows the code before and after the proposed fix hooks/c18_d7_fix.patch). Sign conditions are decided by proved-sound boolean checkers on tables REGENERATED each run from data/verner_*.dat by an independent parser. "
         "Tie: extracted binary64 instance vs. the real classes bit for bit (prepared tables of all 1696+185+30 rows and 5400 recombination coefficients, dense log grids, +-1 ulp around every threshold/shell edge/clamp/node).",
    note="Trusted: Coq kernel + standard real-number axioms + Interval (its reflexive checker runs in the kernel); extraction and OCaml/libm for the correspondence only. Theorems are about exact real arithmetic; "
         "that binary64 evaluation keeps the signs/ranges is checked by an oracle on every real output of the run, not proved (finite-ness is an oracle clause only). pow is Rpower (agrees with C pow for positive base; bases proved positive). "
